@@ -5,8 +5,10 @@ import (
 	"fmt"
 	"sort"
 	"strings"
+	"time"
 
 	"github.com/els0r/goProbe/v4/pkg/goDB/engine"
+	"github.com/els0r/goProbe/v4/pkg/results"
 
 	"verif/dbcheck"
 	"verif/model"
@@ -211,8 +213,31 @@ func c06(r *sim.R) *sim.Violation {
 		}
 		restore := engine.VerifSetNumProcessingUnits(workers)
 		wd.fs.Restart("r")
-		res, err := runQuery(context.Background(), q, t.Draw(2) == 1)
+		// the query runs under a liveness budget of two simulated hours: a reader that waits for
+		// something that never comes (a pool buffer that was not given back, a full channel) does
+		// not stop the fake clock - the engine's own tickers keep it going - so the bubble would
+		// never report a deadlock
+		lowMem := t.Draw(2) == 1
+		var res *results.Result
+		var err error
+		qctx, qcancel := context.WithCancel(context.Background())
+		qdone := make(chan struct{})
+		go func() {
+			defer close(qdone)
+			res, err = runQuery(qctx, q, lowMem)
+		}()
+		hung := false
+		select {
+		case <-qdone:
+		case <-time.After(2 * time.Hour):
+			hung = true
+		}
+		qcancel()
 		restore()
+		if hung {
+			wd.fs.Yield = nil
+			return r.Report(&sim.Violation{Clause: "query-does-not-return", Signature: sig, Detail: fmt.Sprintf("%s (workers=%d lowmem=%v)\ndamage: %s\nno result after two simulated hours\n%s", describe(q), workers, lowMem, strings.Join(what, "; "), blockedSummary())})
+		}
 		wd.fs.Yield = nil
 		if fired {
 			r.Nontriv = len(what) > 0
